@@ -120,7 +120,7 @@ def gen_scenario(rng):
         via = rng.choice(['explicit', 'explicit', 'global', 'palette_class', 'palette_obj', 'custom_palette',
                           'custom_palette2', 'custom_palette3', 'custom_palette4', 'palette_synced'])
         mode = rng.choice(['whole', 'whole', 'lines', 'lines_join', 'whole_then_lines', 'lines_twice', 'interleaved',
-                           'copy', 'concat', 'format', 'plain', 'slice', 'fixed', 'compared', 'centred'])
+                           'copy', 'concat', 'format', 'plain', 'slice', 'fixed', 'compared', 'centred', 'zero_width'])
         if objects[o]['kind'] in ('rec', 'hdoc', 'ppwrap'):
             mode = 'whole'   # a formatted record is a plain CHText, help text is printed: no line iteration
         if objects[o]['kind'] == 'ppwrap':
